@@ -412,6 +412,21 @@ def chown_tree(root, uid=UNPRIVILEGED_UID):
             os.lchown(os.path.join(dp, n), uid, uid)
 
 
+def source_usable_without_privileges():
+    """Conductor reads files of its own package at run time: can an ordinary user reach the tree under test?"""
+    p = os.path.join(SRC_REAL, "conductor")
+    while True:
+        try:
+            mode = os.stat(p).st_mode
+        except OSError:
+            return False
+        if mode & 0o005 != 0o005:
+            return False
+        if p == "/":
+            return True
+        p = os.path.dirname(p)
+
+
 def drop_privileges(res=None, uid=UNPRIVILEGED_UID):
     """`pre` hook for run_cond: the forked child continues as an ordinary user."""
     os.setgroups([])
